@@ -106,28 +106,31 @@ pub enum Class {
     /// alias of an anchor that an earlier document defines: the parser accepts it, the library reports an
     /// unknown anchor for this document and goes on
     Either,
-    /// alias of an anchor defined nowhere: must fail; the parser reports it where it meets it, which ends the
-    /// stream when that happens while a failed document is being skipped and not otherwise (not prescribed)
+    /// alias of an anchor defined nowhere: the parser reports it where it meets it. It fails its document like
+    /// an alias of an earlier document's anchor does, wherever in the document it stands (also behind a
+    /// type-level error, where it is met while the rest of the document is skipped), and the iterator goes on
     UndefinedAlias,
 }
 
-/// Independent look at one document through the raw parser: (scan error?, null-like root?)
-pub fn raw_shape(text: &str) -> (bool, bool) {
+/// Independent look at one document through the raw parser: (scan error?, null-like root?, and whether the
+/// scan error is an alias of an anchor that is defined nowhere)
+pub fn raw_shape(text: &str) -> (bool, bool, bool) {
     let mut root: Option<bool> = None; // Some(true) = null-like scalar root
     let mut depth = 0usize;
     let mut any = false;
     for item in Parser::new_from_str(text) {
         match item {
-            Err(_) => return (true, false),
+            Err(e) => return (true, false, e.info().to_ascii_lowercase().contains("unknown anchor")),
             Ok((ev, _)) => match ev {
                 Event::Scalar(v, style, _, tag) => {
                     if depth == 0 && root.is_none() {
-                        // a scalar explicitly tagged `!!str` is a string whatever it looks like
-                        let str_tag = tag
+                        // an explicitly tagged scalar is what its tag says, whatever it looks like (`!!str null`
+                        // is a string, `!Start` with no content selects a variant): only `!!null` leaves it null
+                        let other_tag = tag
                             .as_ref()
-                            .map(|t| t.suffix == "str" && (t.handle == "!!" || t.handle == "tag:yaml.org,2002:"))
+                            .map(|t| !(t.suffix == "null" && (t.handle == "!!" || t.handle == "tag:yaml.org,2002:")))
                             .unwrap_or(false);
-                        let nullish = !str_tag
+                        let nullish = !other_tag
                             && matches!(style, ScalarStyle::Plain)
                             && (v.is_empty() || v == "~" || v.eq_ignore_ascii_case("null"));
                         root = Some(nullish);
@@ -152,7 +155,7 @@ pub fn raw_shape(text: &str) -> (bool, bool) {
             },
         }
     }
-    (false, !any || root == Some(true))
+    (false, !any || root == Some(true), false)
 }
 
 fn alone<T: DeserializeOwned + Debug>(text: &str, opts: &OptVec) -> Outcome {
@@ -187,7 +190,10 @@ pub fn classify(target: Target, d: &DocSpec, opts: &OptVec, anchor_known_to_pars
     }
     let text = alone_text(d);
     let d = &DocSpec { text, ..d.clone() };
-    let (scan_err, skipped) = raw_shape(&d.text);
+    let (scan_err, skipped, undefined_alias) = raw_shape(&d.text);
+    if undefined_alias {
+        return Class::UndefinedAlias;
+    }
     if scan_err {
         if d.kind.starts_with("ok-then-stray") {
             // the first line is the complete document
@@ -695,14 +701,7 @@ pub fn exec(c: &StreamCase, st: &mut Stats) -> Vec<Viol> {
                         break;
                     }
                     Class::UndefinedAlias => match r.items.get(k) {
-                        Some(Outcome::Err(_)) => {
-                            k += 1;
-                            if r.items.len() == k {
-                                // allowed to stop here
-                                k = r.items.len();
-                                break;
-                            }
-                        }
+                        Some(Outcome::Err(_)) => k += 1,
                         Some(other) => {
                             problem = Some(format!("document {i} aliases an anchor defined nowhere and must fail, the iterator's item {k} is {}", other.short()));
                             break;
@@ -864,7 +863,47 @@ pub fn kinds_for(target: Target) -> Vec<DocSpec> {
             d("type-early", "[not, a, string]\n"),
             d("type-map", "a: 1\n"),
         ],
+        Target::FirstEntry => vec![
+            d("valid-a", "a: 1\n"),
+            d("valid-b", "{k: [1, 2]}\n"),
+            d("two-entries", "a: 1\nb: 2\n"),
+            d("two-entries-flow", "{a: 1, b: 2}\n"),
+            d("rest-nested", "a: 1\nb: {c: [1, 2]}\nd: [3]\n"),
+            d("rest-looks-like-document", "a: 1\na: 1\n"),
+            d("anchors", "a: &x 1\n"),
+            DocSpec { alias_of_earlier: true, ..d("alias-earlier", "a: *x\n") },
+            d("type-early", "[1, 2]\n"),
+            d("empty-map", "{}\n"),
+        ],
+        Target::LenientRoot => vec![
+            d("valid-a", "5\n"),
+            d("valid-b", "-7\n"),
+            d("word", "abc\n"),
+            d("seq", "[1, 2]\n"),
+            d("seq-block", "- 1\n- 2\n"),
+            d("map", "a: 1\n"),
+            d("nested", "[[1], {a: 2}]\n"),
+            d("anchors", "&x 4\n"),
+            DocSpec { alias_of_earlier: true, ..d("alias-earlier", "*x\n") },
+        ],
+        Target::TagEn => vec![
+            d("valid-a", "Start\n"),
+            d("valid-b", "Speed: 4\n"),
+            d("tagged-unit", "!Start\n"),
+            d("tagged-unit-b", "!Stop\n"),
+            d("tagged-newtype", "!Speed 3\n"),
+            d("tagged-empty-string", "!Note\n"),
+            d("tagged-option-null", "!Limit ~\n"),
+            d("tagged-option-word-null", "!Limit null\n"),
+            d("tagged-unknown", "!Nope 1\n"),
+            d("secondary-null", "!!null ~\n"),
+            d("anchors", "Limit: &x 5\n"),
+            DocSpec { alias_of_earlier: true, ..d("alias-earlier", "Limit: *x\n") },
+            d("type-early", "Speed: fast\n"),
+        ],
         _ => vec![
+            d("bom-prefixed", "\u{feff}b: 2\n"),
+            d("type-then-undefined-alias", "a: &q 1\n? [complex, key]\n: *nope\n"),
             DocSpec { inline: true, ..d("empty-literal", "|\n") },
             d("empty-double-quoted", "\"\"\n"),
             d("valid-a", "a: 1\n"),
@@ -893,7 +932,19 @@ pub fn kinds_for(target: Target) -> Vec<DocSpec> {
     v
 }
 
-pub const TARGETS: [Target; 8] = [Target::Cfg, Target::VecI, Target::Tup, Target::Map, Target::En, Target::Json, Target::Str, Target::RcMap];
+pub const TARGETS: [Target; 11] = [
+    Target::Cfg,
+    Target::VecI,
+    Target::Tup,
+    Target::Map,
+    Target::En,
+    Target::Json,
+    Target::Str,
+    Target::RcMap,
+    Target::FirstEntry,
+    Target::LenientRoot,
+    Target::TagEn,
+];
 
 pub fn total(tier: Tier) -> u64 {
     match tier {
